@@ -13,5 +13,8 @@ pub mod dev;
 pub mod ring;
 pub mod qcore;
 pub mod qcheck;
+pub mod c05;
+pub mod c06;
+pub mod replay;
 
 pub use engine::chooser::{choose, deviate};
